@@ -44,6 +44,61 @@ func runC03(c *engine.Ctx) {
 		}
 		return false
 	}
+	// a packet is built either by NewUDPPacket(buf, laddr, raddr) or by a literal whose Content is
+	// EncodeToString(buf); both forms are one "packet site" with a payload and a remote address
+	type pktSite struct {
+		pos     token.Pos
+		payload ssa.Value
+		raddr   ssa.Value
+	}
+	newPktFn := p.FuncObj("pkg/proto/udp", "NewUDPPacket")
+	remoteFld := p.Field("pkg/msg", "UDPPacket", "RemoteAddr")
+	pktSites := func(g *ssa.Function) []pktSite {
+		var out []pktSite
+		engine.ForEachInstr(g, func(in ssa.Instruction) {
+			switch x := in.(type) {
+			case *ssa.Call:
+				if newPktFn != nil && engine.SameFunc(engine.CalleeObj(x), newPktFn) {
+					a := engine.CallArgs(x)
+					out = append(out, pktSite{x.Pos(), a[0], a[2]})
+				}
+			case *ssa.Alloc:
+				if engine.NamedOf(x.Type()) != udpPkt || remoteFld == nil {
+					return
+				}
+				cs := nameStores(x, contentF)
+				rs := nameStores(x, remoteFld)
+				if len(cs) != 1 {
+					return
+				}
+				cl, _ := engine.ResultOfCall(cs[0])
+				if cl == nil || !isB64(cl, "EncodeToString") {
+					return
+				}
+				ps := pktSite{pos: x.Pos(), payload: cl.Call.Args[len(cl.Call.Args)-1]}
+				if len(rs) == 1 {
+					ps.raddr = rs[0]
+				}
+				out = append(out, ps)
+			}
+		})
+		return out
+	}
+	// decoded: the value is the payload decoded from a packet (GetContent(pkt) or DecodeString(pkt.Content))
+	decoded := func(v ssa.Value) bool {
+		src := engine.Provenance(v, engine.ProvOpts{})
+		if gc := p.FuncObj("pkg/proto/udp", "GetContent"); gc != nil && src.HasCall(gc) {
+			return true
+		}
+		for cv := range src.CallIns {
+			if isB64(cv, "DecodeString") {
+				if lf, _ := engine.LoadedField(cv.Call.Args[len(cv.Call.Args)-1]); lf == contentF {
+					return true
+				}
+			}
+		}
+		return false
+	}
 	for _, f := range p.RepoFuncs() {
 		engine.ForEachInstr(f, func(in ssa.Instruction) {
 			al, ok := in.(*ssa.Alloc)
@@ -65,7 +120,7 @@ func runC03(c *engine.Ctx) {
 			c.Check(okEnc, fmt.Sprintf("%s>UDPPacket.Content#%d", p.FuncName(f), n), al.Pos(), len(stores), nil, "Content is the base64 copy of the payload (not a reference to a reusable buffer)")
 		})
 	}
-	if f := fn(c, "pkg/proto/udp.GetContent"); f != nil {
+	if f := p.Fn("pkg/proto/udp.GetContent"); f != nil && f.Blocks != nil { // optional helper: call sites may decode directly
 		n++
 		okDec := false
 		engine.ForEachInstr(f, func(in ssa.Instruction) {
@@ -115,6 +170,9 @@ func runC03(c *engine.Ctx) {
 							cc, ok := u.(ssa.CallInstruction)
 							if ok && engine.SameFunc(engine.CalleeObj(cc), newPkt) {
 								continue
+							}
+							if cv, isCall := u.(*ssa.Call); isCall && isB64(cv, "EncodeToString") {
+								continue // copied into a fresh string: the packet-literal form of NewUDPPacket
 							}
 							if _, isDbg := u.(*ssa.DebugRef); isDbg {
 								continue
@@ -205,21 +263,74 @@ func runC03(c *engine.Ctx) {
 	if f := fn(c, "pkg/proto/udp.Forwarder"); f != nil && remoteF != nil {
 		var keys []ssa.Value
 		var poss []token.Pos
+		// the map is accessed in Forwarder, its closures, and any same-package helper that is handed the map; a key
+		// that is the helper's parameter stands for the argument at the call site
+		type scoped struct {
+			g    *ssa.Function
+			bind map[*ssa.Parameter]ssa.Value
+		}
+		var scope []scoped
+		seenFn := map[*ssa.Function]bool{}
 		for _, g := range append([]*ssa.Function{f}, allAnon(f)...) {
-			engine.ForEachInstr(g, func(in ssa.Instruction) {
+			scope = append(scope, scoped{g, nil})
+			seenFn[g] = true
+		}
+		for i := 0; i < len(scope) && i < 16; i++ {
+			engine.ForEachInstr(scope[i].g, func(in ssa.Instruction) {
+				call, ok := in.(ssa.CallInstruction)
+				if !ok {
+					return
+				}
+				cf := engine.CalleeFn(call)
+				if cf == nil || cf.Blocks == nil || cf.Pkg != f.Pkg || seenFn[cf] {
+					return
+				}
+				hasMap := false
+				for _, a := range call.Common().Args {
+					if _, isMap := a.Type().Underlying().(*types.Map); isMap {
+						hasMap = true
+					}
+				}
+				if !hasMap {
+					return
+				}
+				seenFn[cf] = true
+				b := map[*ssa.Parameter]ssa.Value{}
+				for k, pr := range cf.Params {
+					if k < len(call.Common().Args) {
+						a := call.Common().Args[k]
+						if ap, ok := engine.Unwrap(a).(*ssa.Parameter); ok && scope[i].bind != nil {
+							if r, ok := scope[i].bind[ap]; ok {
+								a = r
+							}
+						}
+						b[pr] = a
+					}
+				}
+				scope = append(scope, scoped{cf, b})
+			})
+		}
+		addKey := func(sc scoped, k ssa.Value, pos token.Pos) {
+			if pr, ok := engine.Unwrap(k).(*ssa.Parameter); ok && sc.bind != nil {
+				if r, ok := sc.bind[pr]; ok {
+					k = r
+				}
+			}
+			keys = append(keys, k)
+			poss = append(poss, pos)
+		}
+		for _, sc := range scope {
+			engine.ForEachInstr(sc.g, func(in ssa.Instruction) {
 				switch x := in.(type) {
 				case *ssa.Lookup:
 					if _, isMap := x.X.Type().Underlying().(*types.Map); isMap {
-						keys = append(keys, x.Index)
-						poss = append(poss, x.Pos())
+						addKey(sc, x.Index, x.Pos())
 					}
 				case *ssa.MapUpdate:
-					keys = append(keys, x.Key)
-					poss = append(poss, x.Pos())
+					addKey(sc, x.Key, x.Pos())
 				case ssa.CallInstruction:
 					if b, ok := x.Common().Value.(*ssa.Builtin); ok && b.Name() == "delete" {
-						keys = append(keys, x.Common().Args[1])
-						poss = append(poss, in.Pos())
+						addKey(sc, x.Common().Args[1], in.Pos())
 					}
 				}
 			})
@@ -257,12 +368,10 @@ func runC03(c *engine.Ctx) {
 			})
 		}
 		c.Check(okWriter, "pkg/proto/udp.Forwarder>writer-address", f.Pos(), 1, nil, "the per-user reply reader is started with that user's RemoteAddr")
-		newPktObj := funcObj(c, "pkg/proto/udp", "NewUDPPacket")
 		for _, g := range allAnon(f) {
-			for _, call := range engine.CallsTo(g, newPktObj) {
+			for _, ps := range pktSites(g) {
 				n++
-				args := engine.CallArgs(call)
-				c.Check(isParam("raddr")(engine.Unwrap(args[2])), "pkg/proto/udp.Forwarder>reply-tag", call.Pos(), 1, nil, "replies are tagged with the address of the user whose datagram opened this backend socket")
+				c.Check(ps.raddr != nil && isParam("raddr")(engine.Unwrap(ps.raddr)), "pkg/proto/udp.Forwarder>reply-tag", ps.pos, 1, nil, "replies are tagged with the address of the user whose datagram opened this backend socket")
 			}
 		}
 	}
@@ -282,26 +391,28 @@ func runC03(c *engine.Ctx) {
 					n++
 					args := engine.CallArgs(call)
 					lf, _ := engine.LoadedField(args[2])
-					bufSrc := engine.Provenance(args[1], engine.ProvOpts{})
-					getContent := p.FuncObj("pkg/proto/udp", "GetContent")
-					c.Check(lf == remoteF && bufSrc.HasCall(getContent), "pkg/proto/udp.ForwardUserConn>reply-to", call.Pos(), 2, nil,
+					c.Check(lf == remoteF && decoded(args[1]), "pkg/proto/udp.ForwardUserConn>reply-to", call.Pos(), 2, nil,
 						"each reply is written, with exactly its decoded content, to the RemoteAddr carried by that packet")
-				case "NewUDPPacket":
-					n++
-					args := engine.CallArgs(call)
-					cl, i := engine.ResultOfCall(args[2])
-					okAddr := cl != nil && i == 1 && engine.CalleeObj(cl) != nil && engine.CalleeObj(cl).Name() == "ReadFromUDP"
-					sl, isSl := args[0].(*ssa.Slice)
-					okLen := false
-					if isSl && sl.High != nil {
-						if c2, i2 := engine.ResultOfCall(sl.High); c2 == cl && i2 == 0 && sl.Low == nil {
-							okLen = true
-						}
-					}
-					c.Check(okAddr && okLen, "pkg/proto/udp.ForwardUserConn>outbound-tag", call.Pos(), 2, nil,
-						"an outbound packet carries buf[:n] and the source address of the very ReadFromUDP that produced it (addr ok=%v, length ok=%v)", okAddr, okLen)
 				}
 			})
+			for _, ps := range pktSites(g) {
+				n++
+				var cl *ssa.Call
+				i := -1
+				if ps.raddr != nil {
+					cl, i = engine.ResultOfCall(ps.raddr)
+				}
+				okAddr := cl != nil && i == 1 && engine.CalleeObj(cl) != nil && engine.CalleeObj(cl).Name() == "ReadFromUDP"
+				sl, isSl := ps.payload.(*ssa.Slice)
+				okLen := false
+				if isSl && sl.High != nil {
+					if c2, i2 := engine.ResultOfCall(sl.High); c2 == cl && i2 == 0 && sl.Low == nil {
+						okLen = true
+					}
+				}
+				c.Check(okAddr && okLen, "pkg/proto/udp.ForwardUserConn>outbound-tag", ps.pos, 2, nil,
+					"an outbound packet carries buf[:n] and the source address of the very ReadFromUDP that produced it (addr ok=%v, length ok=%v)", okAddr, okLen)
+			}
 		}
 	}
 	c.Floor(n, 5)
@@ -390,4 +501,7 @@ func runC03(c *engine.Ctx) {
 	// ---- R6 ----
 	li := engine.AnalyzeLocks(p)
 	c16ChannelsPrefixed(c, li, "R6")
+
+	// ---- R7 wrapper stacks (shared with C01.R1 / C05.R5) ----
+	checkStacks(c, "R7")
 }
